@@ -14,6 +14,7 @@ import Driver.KdcRep
 import Driver.Client
 import Driver.Shared
 import Driver.HttpClient
+import Driver.Total
 
 open Driver
 
@@ -38,6 +39,7 @@ def dispatch (line : String) : String :=
       else if op.startsWith "cl." then Client.handle op args
       else if op.startsWith "sh." then Shared.handle op args
       else if op.startsWith "hc." then HttpClient.handle op args
+      else if op.startsWith "tt." then Total.handle op args
       else none
     match r with
     | some s => s
